@@ -5,20 +5,20 @@ import json, subprocess
 HOOK = subprocess.check_output(["git", "-C", "/repo", "log", "--format=%h", "--grep=verif-hooks", "-1"]).decode().strip()
 
 CHECKS = {
- "C01": ("exploration", "model-based stateful PBT (proptest op sequences) vs reference tokenizer/classifier + terminal emulator",
-         "Random editing sessions against the real Cli; dispatch compared with an independent reference tokenisation/classification of the line observed just before Enter; no exhaustive claim (session space is unbounded).", "6/C01"),
+ "C01": ("exploration", "model-based stateful PBT (proptest op sequences) vs reference tokenizer/classifier + ideal editor + terminal emulator; the same oracle inside a coverage-guided libFuzzer+ASan target",
+         "Random editing sessions against the real Cli; dispatch compared with an independent reference tokenisation/classification of the line observed just before Enter, the line itself with an ideal-editor model and a terminal emulator; a coverage-guided campaign (16 libFuzzer processes) searches the same session space with the same oracle; no exhaustive claim (session space is unbounded).", "6/C01"),
  "C02": ("exploration", "exhaustive enumeration of high-byte sequences + random malformed streams through the Cli, validity oracle and differential against std's UTF-8 decoder",
          "Exhaustive for all sequences of up to 3 bytes >= 0x80 (quick) / up to 4 bytes (thorough) at decoder level; sampled for whole-Cli streams.", "6/C02"),
- "C03": ("exploration", "coverage-guided fuzzing (cargo-fuzz/libFuzzer + ASan, 16 processes) + random raw-byte sessions (proptest), invariant oracle inside the target, process isolation for aborts",
+ "C03": ("exploration", "coverage-guided fuzzing (cargo-fuzz/libFuzzer + ASan, 16 processes) + random raw-byte sessions (proptest), invariant oracle inside the target, process isolation for aborts; thorough adds generated sessions under Miri",
          "Panics, aborts, failed unsafe preconditions (debug assertions on), arithmetic overflow (checks on), sanitizer reports and the explicit invariants behind every unchecked operation are searched for over raw byte sessions with all buffer sizes 0..=64; absence is not established.", "6/C03"),
- "C04": ("exploration", "exhaustive concatenation of boundary key units + random streams, differential against a byte-level reference decoder",
-         "Exhaustive to depth 4 (quick) / 5 (thorough) units over 28 boundary units, which exceeds the decoder's memory depth (previous byte + CSI flag + up to 3 pending UTF-8 bytes); random beyond.", "6/C04"),
- "C05": ("exploration", "state-space closure of an ideal-editor model replayed on the real Editor + model-based random sessions",
+ "C04": ("exploration", "exhaustive concatenation of boundary key units + CSI length sweep + random streams, differential against a byte-level reference decoder",
+         "Exhaustive to depth 4 (quick) / 5 (thorough) units over 28 boundary units, which exceeds the decoder's memory depth (previous byte + CSI flag + up to 3 pending UTF-8 bytes); every CSI length 0..=600 (thorough 5000) parameter bytes; random beyond.", "6/C04"),
+ "C05": ("exploration", "state-space closure of an ideal-editor model replayed on the real Editor + model-based random sessions + the same oracle inside a coverage-guided libFuzzer+ASan target",
          "Every edge of the closure for small buffers is replayed on the real editor (exhaustive for those sizes and alphabet); random sessions for larger buffers and the Cli integration.", "6/C05"),
- "C06": ("exploration", "model-based stateful PBT with an ECMA-48 terminal emulator in lock-step",
+ "C06": ("exploration", "model-based stateful PBT with an ECMA-48 terminal emulator in lock-step, also as the oracle of a coverage-guided libFuzzer+ASan target",
          "What a terminal would display is recomputed from the sink bytes after every call and compared with prompt + line; sampled sessions.", "6/C06"),
- "C07": ("exploration", "exhaustive enumeration of short lines against a reference grammar + round-trip property on random string lists",
-         "Exhaustive for all lines of up to 8 (quick) / 9 (thorough) symbols over a 6-symbol alphabet covering every tokenizer state; round trip and long lines sampled.", "6/C07"),
+ "C07": ("exploration", "exhaustive enumeration of short lines against a reference grammar (function level and typed through the Cli) + round-trip property on random string lists",
+         "Exhaustive for all lines of up to 10 (quick) / 11 (thorough) symbols over a 6-symbol alphabet covering every tokenizer state, up to 7/8 symbols through the whole Cli, and a second alphabet with Unicode blanks; lines touching an open escape are still compared structurally (pattern reference); round trip and long lines sampled.", "6/C07"),
  "C08": ("exploration", "exhaustive enumeration of small token lists + random lists, differential against a reference classifier",
          "Exhaustive for small lists over a 6-symbol alphabet; random beyond; both through ArgList directly and through the whole Cli.", "6/C08"),
  "C09": ("exploration", "generated programs (declarations compiled with the real derive macros) x generated lines, differential against an interpreter of the declaration model",
@@ -29,14 +29,14 @@ CHECKS = {
          "Library half with generated names through a protocol-conforming Autocomplete impl, derived half with a fixed derived enum/group, macro half with generated declarations compiled by the repository's macros; sampled.", "6/C11"),
  "C12": ("exploration", "generated programs x generated help-shaped lines; routing oracle + containment of every declared fact in the help output",
          "Same generated declarations as C09; help output is checked for every fact the declaration states (names, summaries, usage path, positionals, options, sub-commands) without pinning layout.", "6/C12"),
- "C13": ("exploration", "model-based PBT of output scripts against a framing model on bytes and on a terminal emulator",
+ "C13": ("exploration", "model-based PBT of output scripts against a framing model on bytes and on a terminal emulator, also as the oracle of a coverage-guided libFuzzer+ASan target",
          "Random output scripts (all writer entry points, arbitrary splits) at random points of sessions; sampled.", "6/C13"),
  "C14": ("fault_enumeration", "exhaustive single-fault injection at every sink call of a scenario corpus (once and permanent) + random faults in generated sessions",
          "Every write/flush call index of every corpus scenario is failed in turn in both modes, then the session continues on a repaired sink; generated sessions extend the corpus.", "6/C14"),
- "C15": ("exploration", "model-based PBT with an unflushed-byte counter in the sink (invariant after every call)",
+ "C15": ("exploration", "model-based PBT with an unflushed-byte counter in the sink (invariant after every call), also as the oracle of a coverage-guided libFuzzer+ASan target",
          "Invariant over call histories; sampled sessions covering every output-producing path.", "6/C15"),
- "C16": ("exploration", "configuration matrix: the runner is built for all 8 feature subsets; model-based PBT per build + metamorphic equality across builds",
-         "All 8 configurations are built and exercised on every run (exhaustive over configurations); sessions are sampled.", "6/C16"),
+ "C16": ("exploration", "configuration matrix: the runner is built for all 8 feature subsets; model-based PBT per build + metamorphic equality across builds + generated declarations compiled without the help feature",
+         "All 8 configurations are built and exercised on every run (exhaustive over configurations); sessions are sampled; generated declarations that use help / -h / --help as ordinary names are compiled with help off and judged by the C09 interpreter.", "6/C16"),
  "C17": ("exploration", "exhaustive enumeration of all Unicode scalar values, differential against std and round trip through the Cli",
          "All 1,112,031 scalar values are enumerated on every run (utils, decoder, and a full type/edit/submit/recall round trip); thorough adds all 25 neighbour contexts per scalar.", "6/C17"),
 }
@@ -77,10 +77,12 @@ def main():
         "engines": [
             {"name": "vcheck", "path": "/verif/harness", "serves_properties": [c["property_id"] for c in checks],
              "kind_free_text": "Rust harness: proptest-driven and enumerative generators, reference models, terminal emulator, fault-injecting sink, 16 worker processes per check"},
-            {"name": "declgen", "path": "/verif/harness/vmodel/src/decl.rs", "serves_properties": ["C09", "C11", "C12"],
+            {"name": "declgen", "path": "/verif/harness/vmodel/src/decl.rs", "serves_properties": ["C09", "C11", "C12", "C16"],
              "kind_free_text": "generator of derive-macro declarations (Rust source + model) and interpreter of the model; generated crates are compiled with the repository's macros at check time"},
-            {"name": "libfuzzer", "path": "/verif/harness/fuzzhost/fuzz", "serves_properties": ["C03"],
-             "kind_free_text": "cargo-fuzz target `session` (libFuzzer + AddressSanitizer, nightly), oracle inside the target"},
+            {"name": "libfuzzer", "path": "/verif/harness/fuzzhost/fuzz", "serves_properties": ["C03", "C01", "C05", "C06", "C13", "C15"],
+             "kind_free_text": "cargo-fuzz targets (libFuzzer + AddressSanitizer, nightly): `session` (raw byte sessions, C03 invariants inside) and `lockstep` (key/API sessions with the lock-step semantic oracle of C01/C05/C06/C13/C15 inside, selected by VFUZZ_FLAGS)"},
+            {"name": "miri", "path": "/verif/harness/mirirun", "serves_properties": ["C03"],
+             "kind_free_text": "generated sessions interpreted by Miri (thorough tier of C03): aliasing, uninitialised reads, dangling/misaligned accesses in the library's unsafe blocks"},
             {"name": "vsession", "path": "/verif/harness/vsession", "serves_properties": ["C16"],
              "kind_free_text": "session trace server built once per subset of {history, autocomplete, help}"},
         ],
